@@ -160,6 +160,9 @@ impl<'a> Runner<'a> {
         }
         bind.atoms.insert("prologue2".into(), p2);
         bind.atoms.insert("name".into(), inst.name_for("*").as_bytes().to_vec());
+        if scn.get("name2").is_some() {
+            bind.atoms.insert("name2".into(), inst.name_for("R").as_bytes().to_vec());
+        }
         Runner {
             scn,
             inst,
@@ -807,8 +810,11 @@ impl<'a> Runner<'a> {
         let role = args["role"].as_str().ok_or("role")?;
         let cfg = &args["cfg"];
         let name = self.inst.name_for(id).to_string();
-        // each endpoint hashes ITS OWN protocol name
-        self.bind.atoms.insert("name".into(), name.as_bytes().to_vec());
+        // each endpoint hashes ITS OWN protocol name (in a name-mismatch scenario the model itself distinguishes the two
+        // strings as the atoms "name" and "name2", bound at the start)
+        if self.scn.get("name2").is_none() {
+            self.bind.atoms.insert("name".into(), name.as_bytes().to_vec());
+        }
         let s = self.ev_opt(&cfg["s"])?;
         let rs = self.ev_opt(&cfg["rs"])?;
         let prologue = self.ev(&cfg["prologue"])?;
